@@ -11,5 +11,5 @@ cd /verif && (VERIF_NO_LOCK=1 VERIF_EVIDENCE_DIR=/tmp/ev_tmp VERIF_JOBS=${JOBS:-
 for i in $(seq 1 60); do grep -q "scratch" /tmp/seedrun_$name.log 2>/dev/null && break; sleep 1; done
 git -C /repo checkout -- . ; git -C /repo reset -q
 ) 9>/tmp/seed.lock
-while ! grep -q "harnesses SUCCESS" /tmp/seedrun_$name.log 2>/dev/null; do sleep 5; done
+while ! grep -q "harnesses SUCCESS\|BUILD FAILED\|no harness serves" /tmp/seedrun_$name.log 2>/dev/null; do sleep 5; done
 echo "$name: $(grep -a -E '^  k' /tmp/seedrun_$name.log | awk '{print $1":"$2}' | tr '\n' ' ')"
